@@ -142,7 +142,7 @@ def r12(text, args, label):
     parts = []
     for part in old.split('...'):
         toks = part.split()
-        parts.append(re.compile(r'\s*'.join(re.escape(t) for t in toks)))
+        parts.append(re.compile(r'\s*'.join(re.escape(t).replace(r'\.', r'\s*\.\s*') for t in toks)))
     hits = []
     for m0 in parts[0].finditer(text):
         pos = m0.end()
@@ -162,6 +162,19 @@ def r12(text, args, label):
             pos = found.end()
         if ok:
             hits.append((m0.start(), pos, groups))
+    if ALL[0]:
+        if not hits:
+            raise LostAnchor('%s: R12 `%s` matched 0 times' % (label, old))
+        res, pos = [], 0
+        for a, b, groups in hits:
+            if a < pos:
+                continue
+            out = new
+            for k, g in enumerate(groups):
+                out = out.replace('$%d' % (k + 1), g)
+            res.append(text[pos:a] + out)
+            pos = b
+        return ''.join(res) + text[pos:]
     if len(hits) != 1:
         raise LostAnchor('%s: R12 `%s` matched %d times' % (label, old, len(hits)))
     a, b, groups = hits[0]
@@ -169,6 +182,17 @@ def r12(text, args, label):
     for k, g in enumerate(groups):
         out = out.replace('$%d' % (k + 1), g)
     return text[:a] + out + text[b:]
+
+
+ALL = [False]
+
+
+def r12all(text, args, label):
+    ALL[0] = True
+    try:
+        return r12(text, args, label)
+    finally:
+        ALL[0] = False
 
 
 def r14(text, args, label):
@@ -204,7 +228,7 @@ def r14(text, args, label):
     return ''.join(out)
 
 
-RULES = {'R14': r14, 'R1': r1, 'R2': r2, 'R3': r3, 'R11': r11, 'R12': r12}
+RULES = {'R12ALL': r12all, 'R14': r14, 'R1': r1, 'R2': r2, 'R3': r3, 'R11': r11, 'R12': r12}
 
 
 def apply(name, text, args, label):
